@@ -58,6 +58,7 @@ func (r *record) signature() string { return r.Class + "|" + r.Site }
 
 type replayFile struct {
 	Property  string            `json:"property"`
+	Part      string            `json:"part,omitempty"` // worker harness name when the property has several (e.g. C16g)
 	Seed      uint64            `json:"seed"`
 	Index     uint64            `json:"index"`
 	Base      uint64            `json:"base_seed"`
@@ -166,16 +167,18 @@ type batch struct {
 	wallRunUS int64
 	maxTasks  int
 	incon     int
+	perProp   map[string]uint64
 }
 
 func newBatch() *batch {
-	return &batch{faults: map[string]int{}, probes: map[string]int{}, strategy: map[string]int{}, fps: map[uint64]bool{}}
+	return &batch{faults: map[string]int{}, probes: map[string]int{}, strategy: map[string]int{}, fps: map[uint64]bool{}, perProp: map[string]uint64{}}
 }
 
 func (b *batch) add(r record) {
 	b.mu.Lock()
 	defer b.mu.Unlock()
 	b.runs++
+	b.perProp[r.Prop]++
 	b.steps += r.Steps
 	b.simNS += r.SimTimeNS
 	b.wallRunUS += r.WallUS
@@ -193,7 +196,7 @@ func (b *batch) add(r record) {
 	}
 	if (r.MaxRunnable >= 2 && r.Preemptions >= 1) || nf >= 1 {
 		b.nontriv++
-		b.fps[r.Fingerprint] = true
+		b.fps[r.Fingerprint^hashName(r.Prop)] = true
 	}
 	if r.Notes != nil && len(b.samples) < 3 {
 		if s, ok := r.Notes["sample"]; ok {
@@ -207,6 +210,14 @@ func (b *batch) add(r record) {
 	}
 }
 
+func hashName(s string) uint64 {
+	h := uint64(14695981039346656037)
+	for i := 0; i < len(s); i++ {
+		h = (h ^ uint64(s[i])) * 1099511628211
+	}
+	return h
+}
+
 func verdict(r record) string {
 	if r.OK {
 		return "held"
@@ -217,13 +228,61 @@ func verdict(r record) string {
 	return "violation " + r.signature()
 }
 
+// unit is one worker binary of a property: the property's own spec or one of its parts.
+type unit struct {
+	spec    *propSpec
+	b       *built
+	workers int
+	next    uint64
+	err     error
+}
+
+// buildUnits builds the worker binary of the spec and of every part, concurrently.
+func buildUnits(e *environ, spec *propSpec) ([]*unit, error) {
+	units := []*unit{{spec: spec}}
+	for _, p := range spec.Parts {
+		units = append(units, &unit{spec: p})
+	}
+	var wg sync.WaitGroup
+	for _, u := range units {
+		wg.Add(1)
+		go func(u *unit) {
+			defer wg.Done()
+			u.b, u.err = build(e, u.spec)
+		}(u)
+	}
+	wg.Wait()
+	for _, u := range units {
+		if u.err != nil {
+			return units, fmt.Errorf("%s: %w", u.spec.ID, u.err)
+		}
+	}
+	return units, nil
+}
+
+func cleanupUnits(units []*unit) {
+	for _, u := range units {
+		u.b.cleanup()
+	}
+}
+
+func unitFor(units []*unit, prop string) *unit {
+	for _, u := range units {
+		if u.spec.ID == prop {
+			return u
+		}
+	}
+	return units[0]
+}
+
 func cmdCheck(e *environ, spec *propSpec, tier string, base uint64, start time.Time) int {
-	b, err := build(e, spec)
-	defer b.cleanup()
+	units, err := buildUnits(e, spec)
+	defer cleanupUnits(units)
 	if err != nil {
 		fmt.Fprintf(os.Stderr, "vcheck %s: cannot decide: %v\n", spec.ID, err)
 		return 2
 	}
+	b := units[0].b
 	buildSecs := time.Since(start).Seconds()
 	secs, maxRuns := spec.QuickSecs, spec.QuickRuns
 	if tier == "thorough" {
@@ -236,73 +295,85 @@ func cmdCheck(e *environ, spec *propSpec, tier string, base uint64, start time.T
 	if workers == 0 {
 		workers = 16
 	}
-	chunk := spec.Chunk
-	if chunk == 0 {
-		chunk = 100
+	// parts take their share of the workers, the property's own harness keeps the rest
+	left := workers
+	for _, u := range units[1:] {
+		u.workers = u.spec.Workers
+		if u.workers <= 0 || u.workers >= left {
+			u.workers = left / (len(units))
+		}
+		left -= u.workers
 	}
+	units[0].workers = left
 	known := loadKnown(e, spec.ID)
 	bt := newBatch()
 	deadline := time.Now().Add(time.Duration(secs) * time.Second)
-	var next uint64
 	var nmu sync.Mutex
-	take := func() (uint64, uint64, bool) {
+	take := func(u *unit) (uint64, uint64, bool) {
 		nmu.Lock()
 		defer nmu.Unlock()
-		if time.Now().After(deadline) || (maxRuns > 0 && next >= uint64(maxRuns)) {
+		chunk := u.spec.Chunk
+		if chunk == 0 {
+			chunk = 100
+		}
+		if time.Now().After(deadline) || (maxRuns > 0 && u.next >= uint64(maxRuns)) {
 			return 0, 0, false
 		}
-		a := next
-		next += uint64(chunk)
-		if maxRuns > 0 && next > uint64(maxRuns) {
-			next = uint64(maxRuns)
+		a := u.next
+		u.next += uint64(chunk)
+		if maxRuns > 0 && u.next > uint64(maxRuns) {
+			u.next = uint64(maxRuns)
 		}
-		return a, next, true
+		return a, u.next, true
 	}
 	simStart := time.Now()
 	var wg sync.WaitGroup
 	var infraMu sync.Mutex
 	var infra []string
-	var firstChunk sync.Once
-	for w := 0; w < workers; w++ {
-		wg.Add(1)
-		go func() {
-			defer wg.Done()
-			for {
-				a, z, ok := take()
-				if !ok {
-					return
+	for _, u := range units {
+		var firstChunk sync.Once
+		for w := 0; w < u.workers; w++ {
+			wg.Add(1)
+			go func(u *unit) {
+				defer wg.Done()
+				for {
+					a, z, ok := take(u)
+					if !ok {
+						return
+					}
+					samples := 0
+					firstChunk.Do(func() { samples = 3 })
+					for a < z {
+						args := []string{"-sim.prop", u.spec.ID, "-sim.idx", fmt.Sprintf("%d:%d", a, z), "-sim.base", fmt.Sprint(base), "-sim.tier", tier,
+							"-sim.deadline", fmt.Sprint(deadline.Unix() + 1), "-sim.samples", fmt.Sprint(samples)}
+						recs, stderr, werr := runWorker(e, u.b, args, time.Until(deadline)+120*time.Second, 0)
+						for _, r := range recs {
+							r.Prop = u.spec.ID
+							bt.add(r)
+						}
+						done := a + uint64(len(recs))
+						if werr == nil {
+							break // finished its range (or hit the deadline)
+						}
+						if ee, ok := werr.(*exec.ExitError); ok && ee.ExitCode() == 3 {
+							a = done // infra record emitted, continue behind it
+							continue
+						}
+						// crash or watchdog
+						culprit := done
+						if strings.Contains(stderr, "fatal error:") || strings.Contains(stderr, "panic:") {
+							// a Go fatal error inside a run: the process died — record as a crash violation of run `culprit`
+							bt.add(record{Prop: u.spec.ID, Index: culprit, Seed: seedFor(base, culprit), Class: "crash", Site: crashSite(stderr), Msg: tail(stderr, 40)})
+						} else {
+							infraMu.Lock()
+							infra = append(infra, fmt.Sprintf("worker for %s idx %d failed: %v\n%s", u.spec.ID, culprit, werr, tail(stderr, 20)))
+							infraMu.Unlock()
+						}
+						a = culprit + 1
+					}
 				}
-				samples := 0
-				firstChunk.Do(func() { samples = 3 })
-				for a < z {
-					args := []string{"-sim.prop", spec.ID, "-sim.idx", fmt.Sprintf("%d:%d", a, z), "-sim.base", fmt.Sprint(base), "-sim.tier", tier,
-						"-sim.deadline", fmt.Sprint(deadline.Unix() + 1), "-sim.samples", fmt.Sprint(samples)}
-					recs, stderr, werr := runWorker(e, b, args, time.Until(deadline)+120*time.Second, 0)
-					for _, r := range recs {
-						bt.add(r)
-					}
-					done := a + uint64(len(recs))
-					if werr == nil {
-						break // finished its range (or hit the deadline)
-					}
-					if ee, ok := werr.(*exec.ExitError); ok && ee.ExitCode() == 3 {
-						a = done // infra record emitted, continue behind it
-						continue
-					}
-					// crash or watchdog
-					culprit := done
-					if strings.Contains(stderr, "fatal error:") || strings.Contains(stderr, "panic:") {
-						// a Go fatal error inside a run: the process died — record as a crash violation of run `culprit`
-						bt.add(record{Prop: spec.ID, Index: culprit, Seed: seedFor(base, culprit), Class: "crash", Site: crashSite(stderr), Msg: tail(stderr, 40)})
-					} else {
-						infraMu.Lock()
-						infra = append(infra, fmt.Sprintf("worker for idx %d failed: %v\n%s", culprit, werr, tail(stderr, 20)))
-						infraMu.Unlock()
-					}
-					a = culprit + 1
-				}
-			}
-		}()
+			}(u)
+		}
 	}
 	wg.Wait()
 	simSecs := time.Since(simStart).Seconds()
@@ -333,7 +404,8 @@ func cmdCheck(e *environ, spec *propSpec, tier string, base uint64, start time.T
 		unlisted += len(rs)
 		// shrink the smallest example and write the replay file
 		sort.Slice(rs, func(i, j int) bool { return tapeLen(rs[i].Tapes) < tapeLen(rs[j].Tapes) })
-		rp, st, err := shrinkAndSave(e, b, spec, tier, base, rs[0], len(violLines) < 3)
+		vu := unitFor(units, rs[0].Prop)
+		rp, st, err := shrinkAndSave(e, vu.b, spec, vu.spec, tier, base, rs[0], len(violLines) < 3)
 		if err != nil {
 			infra = append(infra, fmt.Sprintf("replay of %s did not reproduce: %v", sig, err))
 			continue
@@ -363,7 +435,8 @@ func cmdCheck(e *environ, spec *propSpec, tier string, base uint64, start time.T
 		fmt.Fprintf(os.Stderr, "vcheck %s: no runs executed\n", spec.ID)
 		exit = 2
 	}
-	writeEvidence(e, spec, tier, base, bt, b, time.Since(start).Seconds(), buildSecs, simSecs, unlisted, knownSeen, shrinkStats, infra)
+	writeEvidence(e, spec, tier, base, bt, units, time.Since(start).Seconds(), buildSecs, simSecs, unlisted, knownSeen, shrinkStats, infra)
+	_ = b
 	fmt.Printf("%s %s: %d runs, %d non-trivial distinct, %d steps, %.0f simulated s, %d violations (%d unlisted), build %.1fs sim %.1fs\n",
 		spec.ID, tier, bt.runs, len(bt.fps), bt.steps, float64(bt.simNS)/1e9, len(bt.viol), unlisted, buildSecs, simSecs)
 	var zero []string
@@ -441,14 +514,18 @@ func runReplay(e *environ, b *built, spec *propSpec, rp *replayFile) (*record, e
 	return &recs[0], nil
 }
 
-func shrinkAndSave(e *environ, b *built, spec *propSpec, tier string, base uint64, r record, doShrink bool) (string, map[string]any, error) {
+func shrinkAndSave(e *environ, b *built, top, spec *propSpec, tier string, base uint64, r record, doShrink bool) (string, map[string]any, error) {
 	sig := r.signature()
 	stats := map[string]any{"signature": sig}
 	if r.Tapes == nil {
 		// crash: only the seed is known; the replay is the seed itself
 		r.Tapes = &tapes{}
 	}
-	cur := &replayFile{Property: spec.ID, Seed: r.Seed, Index: r.Index, Base: base, Tier: tier, Tapes: *r.Tapes, Signature: sig, Message: r.Msg, LogTail: r.Log}
+	part := ""
+	if spec.ID != top.ID {
+		part = spec.ID
+	}
+	cur := &replayFile{Property: top.ID, Part: part, Seed: r.Seed, Index: r.Index, Base: base, Tier: tier, Tapes: *r.Tapes, Signature: sig, Message: r.Msg, LogTail: r.Log}
 	orig := tapeLen(&cur.Tapes)
 	stats["original_choices"] = orig
 	if r.Class != "crash" {
@@ -507,11 +584,11 @@ func shrinkAndSave(e *environ, b *built, spec *propSpec, tier string, base uint6
 	}
 	cur.Shrink = stats
 	h := sha256.Sum256([]byte(sig))
-	name := fmt.Sprintf("%s-%s.json", spec.ID, hex.EncodeToString(h[:5]))
+	name := fmt.Sprintf("%s-%s.json", top.ID, hex.EncodeToString(h[:5]))
 	dir := filepath.Join(e.verif, "replays")
 	os.MkdirAll(dir, 0o755)
 	path := filepath.Join(dir, name)
-	cur.Command = fmt.Sprintf("bin/vcheck %s --replay replays/%s", spec.ID, name)
+	cur.Command = fmt.Sprintf("bin/vcheck %s --replay replays/%s", top.ID, name)
 	buf, _ := json.MarshalIndent(cur, "", " ")
 	if err := os.WriteFile(path, buf, 0o644); err != nil {
 		return "", stats, err
@@ -625,10 +702,23 @@ func cmdReplay(e *environ, spec *propSpec, path string) int {
 		fmt.Fprintf(os.Stderr, "vcheck: %v\n", err)
 		return 2
 	}
+	top := spec
+	if rp.Part != "" {
+		found := false
+		for _, p := range spec.Parts {
+			if p.ID == rp.Part {
+				spec, found = p, true
+			}
+		}
+		if !found {
+			fmt.Fprintf(os.Stderr, "vcheck %s: replay file names unknown part %q\n", top.ID, rp.Part)
+			return 2
+		}
+	}
 	b, err := build(e, spec)
 	defer b.cleanup()
 	if err != nil {
-		fmt.Fprintf(os.Stderr, "vcheck %s: cannot decide: %v\n", spec.ID, err)
+		fmt.Fprintf(os.Stderr, "vcheck %s: cannot decide: %v\n", top.ID, err)
 		return 2
 	}
 	var rec *record
@@ -636,7 +726,7 @@ func cmdReplay(e *environ, spec *propSpec, path string) int {
 		recs, stderr, werr := runWorker(e, b, []string{"-sim.prop", spec.ID, "-sim.idx", fmt.Sprintf("%d:%d", rp.Index, rp.Index+1), "-sim.base", fmt.Sprint(rp.Base), "-sim.tier", rp.Tier}, 300*time.Second, 0)
 		if werr != nil && (strings.Contains(stderr, "fatal error:") || strings.Contains(stderr, "panic:")) {
 			fmt.Printf("reproduced: crash|%s\n%s\n", crashSite(stderr), tail(stderr, 30))
-			fmt.Printf("VIOLATION property=%s replay=%s\n", spec.ID, path)
+			fmt.Printf("VIOLATION property=%s replay=%s\n", top.ID, path)
 			return 1
 		}
 		if len(recs) > 0 {
@@ -680,7 +770,7 @@ func cmdReplay(e *environ, spec *propSpec, path string) int {
 	if rec.signature() != rp.Signature {
 		fmt.Printf("note: recorded signature was %s\n", rp.Signature)
 	}
-	fmt.Printf("VIOLATION property=%s replay=%s\n", spec.ID, path)
+	fmt.Printf("VIOLATION property=%s replay=%s\n", top.ID, path)
 	return 1
 }
 
